@@ -89,6 +89,9 @@ func coord(r *rand.Rand, v *big.Int, size int, mode int) string {
 	case 1:
 		pfx = "bx:" // another named byte-slice type (reflection path of GetBytes)
 	}
+	if v.BitLen() > 8*size { // wider than the curve: only as it is
+		return pfx + hx(v.Bytes())
+	}
 	switch mode {
 	case 0: // fixed length
 		return pfx + hx(v.FillBytes(make([]byte, size)))
